@@ -1,8 +1,147 @@
 import CnlDriver.CS
-/-! `C10` driver table (stub). -/
-namespace Cnl.Drv
-open Cnl
+import CnlModel.Wide
+import CnlSpec.Wide
+/-!
+`C10` driver table: `cnl::wide_integer` over multi-limb `uintwide_t`.
 
-def checkC10 (_toks : List String) (_res : String) : Option Verdict := none
+Values travel as `x<hex>`: the `N`-bit pattern, most significant digit first, `N/4` digits —
+independent of the limb type.  The model runs on limb lists (`Cnl.Wide`), the oracle on `Int`
+(`Cnl.WideSpec`, which never mentions limbs).
+
+    storage <ty>                         => multi:<w>:<n>:<s|u> | builtin:<ity>
+    bin <op> <ty> <a> <b>                => <ty>:<hex>          op ∈ add sub mul div mod and or xor
+    cmp <op> <ty> <a> <b>                => 0|1
+    sh <shl|shr> <ty> <i32|u32> <a> <k>  => <ty>:<hex>
+    un <neg|preinc|predec|postinc|postdec> <ty> <a> => <ty>:<hex>[/<hex after>]
+    toint <ty> <T> <a>                   => <T>:<value>
+    fromint <ty> <T> <v>                 => <ty>:<hex>
+    lim <max|lowest|min|digits> <ty>     => <ty>:<hex> | <digits>
+    dec <ty> <a>                         => decimal text (via operator<<)
+-/
+namespace Cnl.Drv
+open Cnl Cnl.Wide
+
+def hexVal (c : Char) : Option Nat :=
+  if '0' ≤ c ∧ c ≤ '9' then some (c.toNat - 48)
+  else if 'a' ≤ c ∧ c ≤ 'f' then some (c.toNat - 87)
+  else none
+
+/-- `x<hex>` -/
+def parseHex (s : String) : Option Nat :=
+  match s.toList with
+  | 'x' :: ds => if ds.isEmpty then none else ds.foldlM (fun acc c => (hexVal c).map (fun d => acc * 16 + d)) 0
+  | _ => none
+
+def hexDigit (d : Nat) : Char := if d < 10 then Char.ofNat (48 + d) else Char.ofNat (87 + d)
+
+def hexDigits : Nat → Nat → List Char → List Char
+  | 0, _, acc => acc
+  | k+1, v, acc => hexDigits k (v / 16) (hexDigit (v % 16) :: acc)
+
+def showHex (N : Nat) (v : Nat) : String := String.ofList ('x' :: hexDigits (N / 4) v [])
+
+/-- signed reading of an `N`-bit pattern (driver's own, used by the oracle only) -/
+def patToInt (N : Nat) (signed : Bool) (p : Nat) : Int :=
+  if signed && decide (p ≥ 2^(N-1)) then (p : Int) - 2^N else p
+
+def wdFmt (ty : Ty) : Option (Fmt × Nat) :=
+  match ty with
+  | .wd d (.int t) =>
+    match storage d t with
+    | .multi f => some (f, d)
+    | .builtin _ => none
+  | _ => none
+
+def showW (ty : Ty) (f : Fmt) (a : Limbs) : String := ty.toString ++ ":" ++ showHex f.N (Wide.toNat f.w a)
+def showP (ty : Ty) (N : Nat) (x : Int) : String := ty.toString ++ ":" ++ showHex N (WideSpec.pattern N x)
+
+def divLabel (o : DivOut) : String :=
+  let p := match o.path with
+    | .byZero => "byzero" | .zeroNum => "zeronum" | .less => "less" | .equal => "equal" | .single => "single" | .knuth => "knuth"
+  p ++ (if o.stats.addBack > 0 then "+addback" else "") ++ (if o.stats.qhatDec > 0 then "+qdec" else "")
+
+def checkC10 (toks : List String) (res : String) : Option Verdict :=
+  match toks with
+  | ["storage", ty] => do
+    let .wd d (.int t) ← parseTy ty | none
+    let m := match storage d t with
+      | .multi f => s!"multi:{f.w}:{f.n}:{if f.signed then "s" else "u"}"
+      | .builtin b => "builtin:" ++ b.toString
+    some { model := m, spec := none, branch := "storage/" ++ (m.splitOn ":").head!, nontrivial := true }
+  | ["bin", op, tys, a, b] => do
+    let op ← parseBinOp op; let ty ← parseTy tys; let (f, _) ← wdFmt ty
+    let pa ← parseHex a; let pb ← parseHex b
+    let la := ofNat f.w f.n pa; let lb := ofNat f.w f.n pb
+    let m := showRes (showW ty f) (binOp f op la lb)
+    let x := patToInt f.N f.signed pa; let y := patToInt f.N f.signed pb
+    let want := (WideSpec.specBin f.N f.signed op x y).map (showP ty f.N)
+    let label := match op with
+      | .div => (match opDiv f la lb with | some o => "div/" ++ divLabel o | none => "div/diverges")
+      | .mod => (match opMod f la lb with | some o => "mod/" ++ divLabel o | none => "mod/diverges")
+      | .mul => if f.n = 4 then "mul/4limb" else if f.n ≥ 129 then "mul/karatsuba-unmodelled" else "mul/schoolbook"
+      | _ => toks[1]!
+    some { model := m, spec := want.map (· == res), branch := label, nontrivial := want.isSome }
+  | ["cmp", op, tys, a, b] => do
+    let op ← parseCmpOp op; let ty ← parseTy tys; let (f, _) ← wdFmt ty
+    let pa ← parseHex a; let pb ← parseHex b
+    let m := showBool (cmpOp f op (ofNat f.w f.n pa) (ofNat f.w f.n pb))
+    let want := showBool (WideSpec.specCmp op (patToInt f.N f.signed pa) (patToInt f.N f.signed pb))
+    some { model := m, spec := some (want == res), branch := "cmp/" ++ toks[1]! }
+  | ["sh", dir, tys, cty, a, k] => do
+    let ty ← parseTy tys; let (f, _) ← wdFmt ty; let ct ← parseIntTy cty
+    let pa ← parseHex a; let k ← k.toInt?
+    let la := ofNat f.w f.n pa
+    let left := dir == "shl"
+    if !left && dir != "shr" then none
+    let r := if left then shlOp f la k ct.signed else shrOp f la k ct.signed
+    let x := patToInt f.N f.signed pa
+    let inRange := 0 ≤ k ∧ k < f.N
+    let want := if inRange then (WideSpec.specBin f.N f.signed (if left then .shl else .shr) x k).map (showP ty f.N) else none
+    let label := dir ++ (if k < 0 then "/negative" else if k = 0 then "/zero" else if k ≥ f.N then "/exceeds"
+                         else if k.toNat % f.w = 0 then "/limbs" else if k.toNat < f.w then "/bits" else "/limbs+bits")
+    some { model := showW ty f r, spec := want.map (· == res), branch := label, nontrivial := want.isSome }
+  | ["un", op, tys, a] => do
+    let ty ← parseTy tys; let (f, _) ← wdFmt ty
+    let pa ← parseHex a
+    let la := ofNat f.w f.n pa
+    let x := patToInt f.N f.signed pa
+    let w2 := fun (v : Int) => showHex f.N (WideSpec.pattern f.N (WideSpec.wrapTwos f.N f.signed v))
+    let h := fun (l : Limbs) => showHex f.N (Wide.toNat f.w l)
+    let pre := ty.toString ++ ":"
+    let (m, want) ← match op with
+      | "neg" => some (pre ++ h (negate f.w la), pre ++ w2 (-x))
+      | "preinc" => some (pre ++ h (preinc f.w la), pre ++ w2 (x + 1))
+      | "predec" => some (pre ++ h (predec f.w la), pre ++ w2 (x - 1))
+      | "postinc" => some (pre ++ h la ++ "/" ++ h (preinc f.w la), pre ++ w2 x ++ "/" ++ w2 (x + 1))
+      | "postdec" => some (pre ++ h la ++ "/" ++ h (predec f.w la), pre ++ w2 x ++ "/" ++ w2 (x - 1))
+      | _ => none
+    some { model := m, spec := some (want == res), branch := "un/" ++ op }
+  | ["toint", tys, t, a] => do
+    let ty ← parseTy tys; let (f, _) ← wdFmt ty; let t ← parseIntTy t
+    let pa ← parseHex a
+    let m := showTV (t, toBuiltin f t (ofNat f.w f.n pa))
+    let want := showTV (t, t.wrap (patToInt f.N f.signed pa))
+    some { model := m, spec := some (want == res), branch := "toint/" ++ toks[2]! }
+  | ["fromint", tys, t, v] => do
+    let ty ← parseTy tys; let (f, _) ← wdFmt ty; let t ← parseIntTy t
+    let v ← v.toInt?
+    let m := showW ty f (fromBuiltin f t v)
+    let want := showP ty f.N (WideSpec.wrapTwos f.N f.signed v)
+    some { model := m, spec := some (want == res), branch := "fromint/" ++ toks[2]! }
+  | ["lim", what, tys] => do
+    let ty ← parseTy tys; let (f, d) ← wdFmt ty
+    match what with
+    | "max" => some { model := showW ty f (limMax f d), spec := some (showP ty f.N (WideSpec.limMax d) == res), branch := "lim/max" }
+    | "lowest" => some { model := showW ty f (limLowest f d), spec := some (showP ty f.N (WideSpec.limLowest d f.signed) == res), branch := "lim/lowest" }
+    | "min" => some { model := showW ty f (limMin f), spec := none, branch := "lim/min(library-convention)", nontrivial := false }
+    | "digits" => some { model := toString d, spec := some (toString d == res), branch := "lim/digits" }
+    | _ => none
+  | ["dec", tys, a] => do
+    let ty ← parseTy tys; let (f, _) ← wdFmt ty
+    let pa ← parseHex a
+    let m := wrDec f (ofNat f.w f.n pa)
+    let want := WideSpec.decimal (patToInt f.N f.signed pa)
+    some { model := m, spec := some (want == res), branch := "dec" }
+  | _ => none
 
 end Cnl.Drv
